@@ -1,4 +1,4 @@
-from typing import Iterator, Tuple
+from typing import Iterator, Tuple, List
 
 
 def read_lines_as_str__w_minimum_num_chars(min_num_chars_to_read: int, lines: Iterator[str]) -> Tuple[str, bool]:
@@ -15,3 +15,19 @@ def read_lines_as_str__w_minimum_num_chars(min_num_chars_to_read: int, lines: It
             break
     contents = ''.join(actual_lines)
     return contents, len(contents) >= min_num_chars_to_read
+
+
+def split_lines__keep_line_endings(s: str) -> List[str]:
+    """
+    Splits a string into lines that are separated by '\n' (and by '\n' only).
+
+    Differs from str.splitlines, which also splits at '\r', form feed, etc -
+    characters that are not line separators when the same text is read from a file.
+
+    :return: Every line includes its ending '\n', except the last line, if the string does not end with '\n'.
+    """
+    lines = s.split('\n')
+    ret_val = [line + '\n' for line in lines[:-1]]
+    if lines[-1]:
+        ret_val.append(lines[-1])
+    return ret_val
